@@ -17,8 +17,8 @@ LEAVES = {
     "uuid": {"type": "string", "format": "uuid"},
     "conststr": {"const": "fixed"},
     "constint": {"const": 7},
-    "enumstr": {"type": "string", "enum": ["a", "b c", "D"]},
-    "enumint": {"type": "integer", "enum": [1, 2, -3]},
+    "enumstr": {"type": "string", "enum": ["a", "b c", "D", ""]},          # the empty string and 0 are FALSY members
+    "enumint": {"type": "integer", "enum": [1, 2, -3, 0]},
 }
 NULL = {"type": "null"}
 
@@ -72,6 +72,12 @@ def atlas_docs():
         "Open": obj({"p": {"type": "string"}}, addl=True),
         "Empty": obj({}),
         "EmptyClosed": obj({}, addl=False),
+        "AllOptional": obj({"p": {"type": "string"}, "q": {"type": "integer"}}),
+        # optional / nullable / listed references to models whose valid instances include the FALSY value {}
+        "Falsy": obj({"e": {"$ref": REF + "Empty"}, "ec": {"$ref": REF + "EmptyClosed"}, "ao": {"$ref": REF + "AllOptional"},
+                      "ne": any_of({"$ref": REF + "AllOptional"}, NULL), "le": arr({"$ref": REF + "AllOptional"}),
+                      "zero": {"type": "integer", "enum": [0, 1]}, "blank": {"type": "string", "enum": ["", "x"]},
+                      "d0": {"type": "string", "format": "date"}}, required=[]),
         "MapOfModels": obj({"name": {"type": "string"}}, addl={"$ref": REF + "Inner"}),
         "MapOfLists": obj({}, addl=arr({"type": "string", "format": "date"})),
         "MapOfEnums": obj({}, addl={"$ref": REF + "Color"}),
@@ -217,7 +223,10 @@ class Inst:
         rng = self.rng
         m = self.models[cls]
         out = {}
-        for name, req, k in self.abs.class_props(m):
+        props_ = self.abs.class_props(m)
+        if d > 0 and not any(r for _, r, _ in props_) and rng.random() < 0.3:
+            return {}          # the falsy instance of a model without required properties
+        for name, req, k in props_:
             deep = d >= self.maxdepth
             if req or (not deep and rng.random() < 0.6):
                 if deep and not req:
